@@ -106,11 +106,39 @@ class CallMixin:
         st.seth(kh, z3.Store(st.h(kh), d.z, z3.Store(has, kz, z3.BoolVal(False))))
 
     # ------------------------------------------------------------------ spec functions and UFs
-    def uf(self, name, arg_ts, ret_t):
+    def uf(self, name, arg_ts, ret_t, extra=()):
         key = name
         if key not in self.eng.ufs:
-            self.eng.ufs[key] = z3.Function(name, *([t.sort() for t in arg_ts] + [ret_t.sort()]))
+            self.eng.ufs[key] = z3.Function(name, *([t.sort() for t in arg_ts] + list(extra) + [ret_t.sort()]))
         return self.eng.ufs[key]
+
+    @staticmethod
+    def forall_pat(bvs, body, pat):
+        try:
+            return z3.ForAll(bvs, body, patterns=[pat])
+        except z3.Z3Exception:
+            return z3.ForAll(bvs, body)
+
+    def spec_heap_keys(self, sf, pts, rt, st):
+        """Heap arrays a heap-reading spec function depends on (dry run of its body, cached)."""
+        if sf.heap_keys is not None:
+            return sf.heap_keys
+        from .engine import State
+        self.dry_running.add(sf.name)
+        saved = (self.spec, self.bound, self.eng.read_log, self.qvars)
+        self.spec = True
+        self.bound = [dict((p, SV(t, t.fresh(fresh_name('dry_' + p)))) for (p, _), t in zip(sf.params, pts))]
+        self.eng.read_log = set()
+        scratch = State(self.eng)
+        scratch.old = scratch
+        try:
+            self.eval_spec_body(sf.body, scratch)
+            keys = sorted((k for k in self.eng.read_log if k[0] != 'alloc'), key=lambda k: str(self.eng.hkey(k)))
+        finally:
+            self.spec, self.bound, self.eng.read_log, self.qvars = saved
+            self.dry_running.discard(sf.name)
+        sf.heap_keys = keys
+        return keys
 
     def involves_bound(self, zs):
         if not self.qvars:
@@ -147,7 +175,7 @@ class CallMixin:
                 bvs = self.involves_bound(zs)
                 for i, ax in enumerate(axf(self, f, zs)):
                     if bvs:
-                        ax = z3.ForAll(bvs, ax, patterns=[app])
+                        ax = self.forall_pat(bvs, ax, app)
                     st.add_axiom((name, i, app.get_id()), ax)
             return SV(rt, app)
         if name in P.uf:
@@ -165,9 +193,17 @@ class CallMixin:
         if len(args) != len(pts):
             raise ContractError('spec %s arity' % sf.name)
         cargs = [coerce(a, t) for a, t in zip(args, pts)]
-        f = self.uf('spec_' + sf.name, pts, rt)
         zs = [a.z for a in cargs]
-        app = f(*zs)
+        if sf.heap:
+            if sf.name in self.dry_running:
+                return SV(rt, rt.fresh(fresh_name('dry')))
+            keys = self.spec_heap_keys(sf, pts, rt, st)
+            hz = [st.h(k) for k in keys]
+            f = self.uf('spec_' + sf.name, pts, rt, extra=[h.sort() for h in hz])
+            app = f(*(zs + hz))
+        else:
+            f = self.uf('spec_' + sf.name, pts, rt)
+            app = f(*zs)
         if fuel is None:
             fuel = self.fuel_left.get(sf.name, sf.fuel)
         depth_key = (sf.name, app.get_id())
@@ -193,7 +229,7 @@ class CallMixin:
             ax = app == coerce(body, rt).z
             bvs = self.involves_bound(zs)
             if bvs:
-                ax = z3.ForAll(bvs, ax, patterns=[app])
+                ax = self.forall_pat(bvs, ax, app)
             st.add_axiom(depth_key, ax)
         return SV(rt, app)
 
@@ -217,6 +253,9 @@ class CallMixin:
     # ------------------------------------------------------------------ calls
     def ev_Call(self, n, st):
         f = n.func
+        src = ast.unparse(n)
+        if src in self.eng.prop.consts:
+            return self.const_sv(self.eng.prop.consts[src])
         if n.keywords and any(k.arg is None for k in n.keywords):
             raise Unsupported('**kwargs call')
         if isinstance(f, ast.Name):
@@ -247,6 +286,7 @@ class CallMixin:
                 tmp = o.copy()
                 tmp.axd = st.axd
                 tmp.pc = st.pc
+                tmp.pcd = st.pcd
                 v = self.ev(n.args[0], tmp)
                 return v
             finally:
@@ -580,14 +620,25 @@ def _ax_rep(self, f, zs):
 
 def _ax_lower(self, f, zs):
     (s,) = zs
-    return [z3.Length(f(s)) == z3.Length(s)]
+    c = z3.StrToCode(s)
+    return [z3.Length(f(s)) == z3.Length(s),
+            z3.Implies(z3.And(z3.Length(s) == 1, c < 128),
+                       f(s) == z3.StrFromCode(z3.If(z3.And(65 <= c, c <= 90), c + 32, c)))]
+
+
+def _ax_upper(self, f, zs):
+    (s,) = zs
+    c = z3.StrToCode(s)
+    return [z3.Length(f(s)) == z3.Length(s),
+            z3.Implies(z3.And(z3.Length(s) == 1, c < 128),
+                       f(s) == z3.StrFromCode(z3.If(z3.And(97 <= c, c <= 122), c - 32, c)))]
 
 
 BUILTIN_UF = {
     'rep': ([T.Str, T.Int], T.Str, _ax_rep),
     'int_to_str': ([T.Int], T.Str, None),
     'str_lower': ([T.Str], T.Str, _ax_lower),
-    'str_upper': ([T.Str], T.Str, _ax_lower),
+    'str_upper': ([T.Str], T.Str, _ax_upper),
     'str_strip': ([T.Str], T.Str, None),
     'str_replace': ([T.Str, T.Str, T.Str], T.Str, None),
     'str_isdigit': ([T.Str], T.Bool, None),
